@@ -223,6 +223,13 @@ func c06Judge(c *run.Ctx, s streamCase, rkind string, rd io.Reader) {
 	// what is handed to ReadPacket, and how many bytes it has consumed so far
 	var src io.Reader = cr
 	pos := func() int64 { return cr.N }
+	var cconn *mon.CountingConn
+	if nc, ok := rd.(net.Conn); ok {
+		// a real connection goes to ReadPacket with its whole method set
+		cconn = &mon.CountingConn{Conn: nc}
+		src = cconn
+		pos = func() int64 { return cconn.N }
+	}
 	switch rkind {
 	case "bytes.Buffer-direct":
 		// the concrete reader types programs hand over, unwrapped, so that
@@ -325,6 +332,10 @@ func c06Judge(c *run.Ctx, s streamCase, rkind string, rd io.Reader) {
 		}
 		res := mon.Read(src)
 		c.Eval(1)
+		if dconn != nil && (dconn.CloseCalls > 0 || dconn.WriteCalls > 0) || cconn != nil && (cconn.CloseCalls > 0 || cconn.WriteCalls > 0) {
+			fail("connection-touched/"+tname(f.Type), fmt.Sprintf("while reading frame %d (%s) ReadPacket closed or wrote to the connection it was given: the frames behind it are lost (outcome %v)", k, f.Kind, res.Err))
+			return
+		}
 		if dconn != nil && dconn.TimedOut > 0 {
 			fail("deadline-left-armed/"+tname(f.Type), fmt.Sprintf("frame %d arrived after an hour of silence (virtual clock) and was not returned: a read deadline armed during an earlier call was still in force (%d deadline calls, %d arming); err=%v", k, dconn.SetCalls, dconn.ArmCalls, res.Err))
 			return
@@ -395,7 +406,7 @@ func c06Judge(c *run.Ctx, s streamCase, rkind string, rd io.Reader) {
 		// trailing bytes: whatever they are read as, the bytes before
 		// them must have been consumed exactly (checked per call above),
 		// so the trailer was neither touched nor interpreted earlier.
-		if cr.N > int64(len(stream)) {
+		if pos() > int64(len(stream)) {
 			fail("beyond", "more bytes drawn than the stream holds")
 		}
 	}
@@ -405,7 +416,11 @@ func c06Judge(c *run.Ctx, s streamCase, rkind string, rd io.Reader) {
 		d["events"] = log
 		c.Sample(d)
 	}
-	c.Count("read-calls-per-frame", bucket(cr.Calls/(len(s.frames)+1)), 1)
+	calls := cr.Calls
+	if cconn != nil {
+		calls = cconn.Calls
+	}
+	c.Count("read-calls-per-frame", bucket(calls/(len(s.frames)+1)), 1)
 }
 
 func bucket(n int) string {
